@@ -314,6 +314,51 @@ def guarded_by_bool(fn, event_bb, call_pat, want, summaries=None, db=None, depth
     return None
 
 
+def guarded_everywhere(db, f, event_pat, guard_pat, want, depth=2, _seen=None):
+    """Helper-aware GUARD: every call matching event_pat that f reaches (directly, or inside workspace helpers /
+    closures up to `depth`) is dominated, in the function that contains it or at the call of the helper that
+    contains it, by the `want` edge of a test on guard_pat. Returns (n_events, [unguarded (fn, bb)])."""
+    _seen = _seen if _seen is not None else set()
+    if f.id in _seen:
+        return 0, []
+    _seen.add(f.id)
+    summ = Summaries(db, event_pat, depth=depth)
+    n = 0
+    bad = []
+    for bb in summ.event_blocks(f, "may", depth=depth):
+        t = f.blocks[bb]["t"]
+        if guarded_by_bool(f, bb, guard_pat, want, db=db) is not None:
+            n += 1
+            continue
+        if call_matches(t, event_pat):
+            n += 1
+            bad.append((f, bb))
+            continue
+        if depth <= 0:
+            bad.append((f, bb))
+            continue
+        # the event lies inside a helper (or a closure handed to one): it must be guarded in there
+        inner = []
+        for g in db.callee_fns(t):
+            inner.append(db.body_of(g))
+        for a in t.get("args", []):
+            p = op_place(a)
+            if p is None:
+                continue
+            for r in f.cfg.origins(p["l"]):
+                if r[0] == "agg" and r[3]["r"].get("x") in ("closure", "coroutine"):
+                    g = db.fns.get(r[3]["r"]["def"])
+                    if g is not None:
+                        inner.append(g)
+        for g in inner:
+            if not summ.may(g, depth - 1):
+                continue
+            k, b2 = guarded_everywhere(db, g, event_pat, guard_pat, want, depth - 1, _seen)
+            n += k
+            bad.extend(b2)
+    return n, bad
+
+
 def discr_edges(fn, call_bb):
     """For a call returning an enum (Option/Result/Poll/ControlFlow...) at call_bb:
     list of (switch_bb, {variant_index_str: target}, otherwise)."""
